@@ -106,6 +106,9 @@ func genC10(t *rapid.T) C10Case {
 		c.Op = rapid.SampledFrom(c10Setters).Draw(t, "op")
 	default:
 		c.Op = "readonly"
+		// F = 1: the binary floating-point accessors only (so that the zone of known finding F-10 can be excluded
+		// by an input predicate without losing the other accessors on those values)
+		c.F = uint64(rapid.IntRange(0, 2).Draw(t, "rofloat") / 2)
 	}
 	ar := c10Arith[c.Op]
 	if c.Op == "readonly" {
@@ -307,8 +310,13 @@ func (a c10Out) String() string {
 	return fmt.Sprintf("%v ret=%q", a.Snap, h.FirstN(a.Ret, 200))
 }
 
-func readOnlyProbe(x *decimal.Decimal) string {
+func readOnlyProbe(x *decimal.Decimal, floats bool) string {
 	s := ""
+	if floats {
+		f64, a3 := x.Float64()
+		f32, a4 := x.Float32()
+		return fmt.Sprint(f64, a3, f32, a4, "|", x.Float(nil).Text('p', 0), "|", x.Float(new(big.Float).SetPrec(24).SetInf(true)).Text('p', 0))
+	}
 	for _, f := range []byte("eEfgGpb") {
 		for _, p := range []int{-1, 0, 3} {
 			s += x.Text(f, p) + "|"
@@ -318,9 +326,7 @@ func readOnlyProbe(x *decimal.Decimal) string {
 	s += fmt.Sprint(x.MinPrec(), x.IsInt(), x.IsInf(), x.IsZero(), x.Sign(), x.Signbit(), x.MantExp(nil), x.String())
 	i64, a1 := x.Int64()
 	u64, a2 := x.Uint64()
-	f64, a3 := x.Float64()
-	f32, a4 := x.Float32()
-	s += fmt.Sprint("|", i64, a1, u64, a2, f64, a3, f32, a4)
+	s += fmt.Sprint("|", i64, a1, u64, a2)
 	if i, a := x.Int(nil); i != nil {
 		s += fmt.Sprint("|", i.String(), a)
 	}
@@ -395,7 +401,7 @@ func c10Run(c C10Case, reference bool) (out c10Out) {
 		case "mantexp":
 			out.Ret = fmt.Sprint(ops[1].MantExp(z))
 		case "readonly":
-			out.Ret = readOnlyProbe(ops[1])
+			out.Ret = readOnlyProbe(ops[1], c.F == 1)
 		case "setint64":
 			z.SetInt64(bigOf(c.I).Int64())
 		case "setuint64":
